@@ -8,7 +8,7 @@ def jobs(tier):
 
 META = {
     "trusted_base": D.DFS_TRUSTED,
-    "assumptions": ["tracks of at most 16 KiB; bit-stream stride 1 (HxC MFM) or 2 (HFE side interleave)"],
-    "outside": ["copy_hfe for HFEv3 tracks (opcodes); the rest of read_all_sectors (file reads, bit reversal by std::transform, per-track count check); compute_geometry (std::set): the end-to-end 'same sectors as the .ssd' clause is undecided"],
-    "explanation": "reverse_bit_order is the bit reversal; BitStream::raw_pos/rawbit/getbit/size address bit (bitpos*stride+first) LSB-first in the byte vector; copy_hfe (v1) copies each block byte for byte, bit-reversed; side h of a track is the blocks 2k+h; an MFM byte is delivered only under the MFM clock rule; HxC header fields and track list (read up to the last track of the last side); PicTrack::track_len rounds up to 512; both flux adapters return the sector whose ID is (lba / S, side, lba % S) or nothing",
+    "assumptions": ["tracks of at most 16 KiB; bit-stream stride 1 (HxC MFM) or 2 (HFE side interleave)", "copy_hfe: the number of cells a SKIPBITS operand contributes (8-n of the operand byte for n < 8, none for n >= 8) is taken from the code -- the property does not define it; no claim about their content; bytes F5..FF in an opcode position excluded", "the step from per-block copy_hfe contracts plus the state-carry monitor of the side-block loop to the whole side stream is an argument about the specification automaton (run over a concatenation), not a discharged obligation"],
+    "outside": ["the rest of read_all_sectors (file reads, bit reversal by std::transform, per-track count check); compute_geometry (std::set): the end-to-end 'same sectors as the .ssd' clause is undecided"],
+    "explanation": "reverse_bit_order is the bit reversal; BitStream::raw_pos/rawbit/getbit/size address bit (bitpos*stride+first) LSB-first in the byte vector; copy_hfe: opcode automaton (NOP/SETINDEX/SETBITRATE/SKIPBITS/RAND) with the decoding state carried across the side blocks of a track, every data cell at the position the automaton gives it (v1: byte for byte, bit-reversed); side h of a track is the blocks 2k+h; an MFM byte is delivered only under the MFM clock rule; HxC header fields and track list (read up to the last track of the last side); PicTrack::track_len rounds up to 512; both flux adapters return the sector whose ID is (lba / S, side, lba % S) or nothing",
 }
